@@ -348,10 +348,22 @@ CLAIMED["C28"] = dict(
         + TRUST,
    design="DESIGN.md §4 C28")
 
+CLAIMED["C14"] = dict(
+   text="Proof-level guard obligations on the master's real vacuum round for one volume (Topology.vacuumOneVolumeLayout, batchVacuumVolumeCommit; the RPC fan-outs "
+        "abstracted): a read-only volume is skipped; compaction is asked for only after a positive check, on the replica list the check returned; commit runs only "
+        "after a compaction that succeeded on every replica of that list, cleanup only after one that did not, both on that same list and volume id (so commit never "
+        "runs on a replica whose compaction did not succeed); every abandoned compaction is followed by offering the volume back to the writable list, once per "
+        "replica (loop invariants over the call counters), where SetVolumeAvailable (C11) admits it only if it still qualifies; batchVacuumVolumeCommit asks every "
+        "replica of the list and makes the volume available again only if every commit succeeded, then once per replica with the round's volume id.",
+   note="Assumed (trusted, goroutines / channels / timers): batchVacuumVolumeCheck and batchVacuumVolumeCompact return true only if every replica asked answered in "
+        "time and positively, and Compact takes the volume out of the writable list; batchVacuumVolumeCleanup. Not decided: replica content after a partial commit "
+        "failure (the volume then stays out of the writable list), concurrent heartbeats and writes during the round, the volume servers' side (C04). One defect "
+        "repaired (a failed compaction left the volume unwritable for good). " + TRUST,
+   design="DESIGN.md §4 C14")
+
 NA = {
  "C03":"crash-point property over byte-level truncation of two persistent files; no per-function contract within reach decides it (DESIGN §4 C03)",
  "C10":"needs inductive tree predicates and cardinality reasoning over interface-typed nodes in pointer maps with randomised picking (DESIGN §4 C10)",
- "C14":"goroutines, channels and RPC timeouts across several servers: a fault-sequence property of an orchestration outside a sequential VC generator",
  "C15":"planners over string-keyed map snapshots; needs multiset/cardinality reasoning over maps that the generator cannot do unbounded",
  "C16":"same reason as C15: planners over map snapshots and shard bitmaps across many servers",
  "C27":"recursive listing driven by gRPC stream callbacks with mutable cursor state across recursion over an external tree",
